@@ -244,6 +244,12 @@ var classes = []evid.Class{
 		td := jgen.TypeDesc{K: "struct", Fields: []jgen.FieldDesc{{Name: "N", Tag: &tg, T: jgen.TypeDesc{K: "number"}}}}
 		return one(td, nil, `{"N":"-0 "}`)
 	}},
+	{Name: "json-string-option-float-held-to-json-syntax", Witness: func() *evid.Failure {
+		// struct{F float64 `json:",string"`}: encoding/json hands the quoted text to strconv.ParseFloat
+		tg := ",string"
+		td := jgen.TypeDesc{K: "struct", Fields: []jgen.FieldDesc{{Name: "F", Tag: &tg, T: jgen.TypeDesc{K: "float64"}}, {Name: "G", Tag: &tg, T: jgen.TypeDesc{K: "float32"}}}}
+		return one(td, nil, `{"F":"007"}`, `{"F":"5.","G":"-.5"}`, `{"F":"0x1p-2"}`, `{"G":"-Inf"}`)
+	}},
 	{Name: "json-named-empty-interface-holding-value", Witness: func() *evid.Failure {
 		// var x AnyT = 1; Unmarshal(`true`, &x): encoding/json replaces the held value
 		i := jgen.TypeDesc{K: "int"}
